@@ -54,7 +54,9 @@ def master_view(spec):
 def remap_word(spec, a):
     """documented Remapper function on word addresses (lanes*8-bit words, word addressing)"""
     L = spec["lanes"]
-    origin, size = spec["origin"], spec["size"]          # bytes
+    origin, size = spec["origin"], spec.get("size")      # bytes
+    if size is None:                                     # default: the master's whole address space
+        size = L << max(1, (spec["backing_bytes"] // L - 1).bit_length())
     mask = size // L - 1
     w = (origin // L) | (a & mask)
     byte = w * L
@@ -72,6 +74,8 @@ def make(spec):
     top = Module()
     img = image(spec)
     aw = max(1, (words - 1).bit_length())
+    adr_shift = 0           # byte-addressed master interfaces: the Env's word index is shifted onto the bus
+    slave = sside = None    # slave side of the adapter, observed with spec["sside"]
     if kind in ("sram", "sram_ro"):
         sram = _sram(dw, words, img, read_only=(kind == "sram_ro"), aw=aw)
         top.submodules += sram
@@ -100,35 +104,75 @@ def make(spec):
         sram = _sram(sdw, swords, img, aw=max(1, (swords - 1).bit_length()))
         master = wishbone.Interface(data_width=dw, adr_width=aw)
         top.submodules += sram, wishbone.Cache(spec["cachesize"], master, sram.bus, reverse=spec.get("reverse", True))
+        slave = sram.bus
     elif kind == "remap":
         bwords = spec["backing_bytes"] // L
-        sram = _sram(dw, bwords, img, aw=max(1, (bwords - 1).bit_length()))
-        master = wishbone.Interface(data_width=dw, adr_width=max(1, (bwords - 1).bit_length()))
+        bw = max(1, (bwords - 1).bit_length())
+        sram = _sram(dw, bwords, img, aw=bw)
         src = [SoCRegion(origin=o, size=s) for o, s in spec.get("src", [])]
         dst = [SoCRegion(origin=o, size=s) for o, s in spec.get("dst", [])]
-        top.submodules += sram, wishbone.Remapper(master, sram.bus, origin=spec["origin"], size=spec["size"],
-                                                  src_regions=src, dst_regions=dst)
+        kw = {} if spec.get("size") is None else {"size": spec["size"]}
+        if spec.get("addressing", "word") == "byte":
+            # byte-addressed master and slave interfaces (the Remapper's second code path); the word-addressed
+            # SRAM is wired to the upper address bits of the remapper's slave side (plain wiring, no logic)
+            adr_shift = (L - 1).bit_length()
+            master = wishbone.Interface(data_width=dw, adr_width=bw, addressing="byte")
+            slave = wishbone.Interface(data_width=dw, adr_width=bw, addressing="byte")
+            top.comb += [slave.connect(sram.bus, omit={"adr"}), sram.bus.adr.eq(slave.adr[adr_shift:])]
+            sside = [slave.cyc & slave.stb, slave.ack, slave.we, slave.adr[adr_shift:]]
+        else:
+            master = wishbone.Interface(data_width=dw, adr_width=bw)
+            slave = sram.bus
+        top.submodules += sram, wishbone.Remapper(master, slave, origin=spec["origin"], src_regions=src, dst_regions=dst, **kw)
     elif kind == "wb2csr":
-        assert L == 1
-        mem = Memory(8, words, init=img[:words], name="m")
-        csr = csr_bus.Interface(data_width=8, address_width=14)
+        mem = Memory(dw, words, init=[sum((img[w * L + l] & 0xff) << (8 * l) for l in range(L)) for w in range(words)],
+                     name="m")
+        csr = csr_bus.Interface(data_width=dw, address_width=14)
         cs = csr_bus.SRAM(mem, 0, bus=csr, paging=0x800)
-        master = wishbone.Interface(data_width=8, adr_width=14)
+        if spec.get("addressing", "word") == "byte":
+            adr_shift = (L - 1).bit_length()
+            master = wishbone.Interface(data_width=dw, adr_width=14, addressing="byte")
+        else:
+            master = wishbone.Interface(data_width=dw, adr_width=14)
         top.submodules += cs, wishbone.Wishbone2CSR(master, csr, register=spec.get("register", True))
     else:
         raise ValueError(kind)
-    req, adr, we, sel, data = Signal(), Signal(max=max(2, words)), Signal(), Signal(L), Signal(L)
+    # req: 0 idle, 1 cyc & stb, 2 cyc & ~stb, 3 ~cyc & stb (codes 2 and 3: FlatMemContract, Junk)
+    req, adr, we, sel, data = Signal(2), Signal(max=max(2, words)), Signal(), Signal(L), Signal(L)
     top.comb += [
-        master.cyc.eq(req), master.stb.eq(req), master.we.eq(we), master.adr.eq(adr), master.sel.eq(sel),
+        master.cyc.eq((req == 1) | (req == 2)), master.stb.eq((req == 1) | (req == 3)), master.we.eq(we),
+        master.adr.eq(adr << adr_shift), master.sel.eq(sel),
         master.dat_w.eq(Cat(*[Cat(data[l], Constant(0, 7)) for l in range(L)])),
     ]
     outs = [master.ack, master.err] + [master.dat_r[8 * l:8 * l + 8] for l in range(L)]
+    if spec.get("sside"):
+        if sside is None:
+            sside = [slave.cyc & slave.stb, slave.ack, slave.we, slave.adr]
+        outs += sside
     return top, [req, adr, we, sel, data], outs
 
 
-def tla_cfg(spec):
-    return {"lanes": spec["lanes"], "words": spec["words"], "init": master_view(spec),
-            "readonly": int(spec["kind"] == "sram_ro"), "nosel0": int(spec.get("nosel0", 0))}
+def tla_cfg(spec, wi=0):
+    cfg = {"lanes": spec["lanes"], "words": spec["words"], "init": master_view(spec),
+           "readonly": int(spec["kind"] == "sram_ro"), "nosel0": int(spec.get("nosel0", 0)),
+           "junk": int(spec.get("junk", 0)), "adrs": list(spec.get("adrs", [])), "sels": list(spec.get("sels", [])),
+           "sside": int(bool(spec.get("sside"))), "smap": [], "wi": wi}
+    if spec["kind"] == "remap" and spec.get("sside"):
+        cfg["smap"] = [remap_word(spec, a) for a in range(spec["words"])]     # documented map, as for `init`
+    return cfg
+
+
+def required_witnesses(spec):
+    """names (FlatMemContract.tla, Wit) that the exploration of this DUT must have produced"""
+    w = []
+    if spec.get("junk"):
+        w += ["write-shaped lines with cyc high and stb low", "write-shaped lines with cyc low and stb high"]
+    if spec["kind"] == "cache" and spec.get("misses"):
+        # the geometry has more tags than lines for the addresses used: dirty lines are evicted and refilled
+        w += ["slave-side write acknowledged", "slave-side read acknowledged"]
+    if spec["kind"] == "remap" and spec.get("sside"):
+        w.append("slave-side address differs from the master's")
+    return w
 
 
 class Hint:
@@ -145,33 +189,72 @@ class Hint:
 
 
 def configs(tier):
+    """junk = 1: between requests the bus lines also carry write-shaped patterns without a request (cyc & ~stb,
+    ~cyc & stb), see FlatMemContract; sside: slave side observed (witnesses, SlaveAddressMapped); misses: cache
+    geometry in which the addresses used have more tags than lines (witnesses required); adrs / sels: the master
+    uses these word addresses / byte selects only"""
     L = []
 
     def add(**spec):
         spec.setdefault("backing_bytes", spec["words"] * spec["lanes"])
-        L.append((spec, tla_cfg(spec)))
-    add(kind="sram", lanes=2, words=2, init="alt")
-    add(kind="sram_ro", lanes=2, words=2, init="alt")
-    add(kind="sram", lanes=1, words=4, init="idx")
-    add(kind="down", lanes=2, words=2, ratio=2, init="alt")
-    add(kind="down", lanes=4, words=1, ratio=4, init="alt")
-    add(kind="up", lanes=1, words=4, ratio=2, init="idx")
-    add(kind="chain", lanes=1, words=4, init="idx")
-    add(kind="remap", lanes=1, words=2, backing_bytes=8, origin=4, size=2, init="idx")
-    add(kind="remap", lanes=1, words=4, backing_bytes=8, origin=0, size=4, src=[(2, 2)], dst=[(6, 2)], init="idx")
-    add(kind="wb2csr", lanes=1, words=4, register=True, init="idx")
-    add(kind="wb2csr", lanes=1, words=4, register=False, init="idx")
-    add(kind="cache", lanes=1, words=4, slave_dw=8, cachesize=2, init="zero")
-    add(kind="cache", lanes=1, words=4, slave_dw=8, cachesize=2, init="idx")
-    add(kind="cache", lanes=1, words=4, slave_dw=16, cachesize=4, init="zero")
-    add(kind="cache", lanes=2, words=2, slave_dw=8, cachesize=2, init="zero", nosel0=1)
+        if spec["kind"] in ("cache", "remap"):
+            spec.setdefault("sside", 1)
+        L.append(spec)
+    add(kind="sram", lanes=2, words=2, init="alt", junk=1)
+    add(kind="sram_ro", lanes=2, words=2, init="alt", junk=1)
+    add(kind="sram", lanes=1, words=4, init="idx", junk=1)
+    add(kind="down", lanes=2, words=2, ratio=2, init="alt", junk=1)
+    add(kind="down", lanes=4, words=1, ratio=4, init="alt", junk=1)
+    add(kind="up", lanes=1, words=4, ratio=2, init="idx", junk=1)
+    add(kind="chain", lanes=1, words=4, init="idx", junk=1)
+    add(kind="remap", lanes=1, words=2, backing_bytes=8, origin=4, size=2, init="idx", junk=1)
+    add(kind="remap", lanes=1, words=4, backing_bytes=8, origin=0, size=4, src=[(2, 2)], dst=[(6, 2)], init="idx", junk=1)
+    # 16-bit words: origin and region bounds are byte quantities, the bus is word addressed (shift by log2(lanes)) ...
+    add(kind="remap", lanes=2, words=2, backing_bytes=16, origin=8, size=4, init="idx", junk=1)
+    # ... a region with master words below AND above it (both bounds of the window comparison) ...
+    add(kind="remap", lanes=1, words=4, backing_bytes=8, origin=0, size=4, src=[(1, 2)], dst=[(5, 2)], init="idx", junk=1)
+    # ... and byte-addressed interfaces (no shift), 16-bit words
+    add(kind="remap", lanes=2, words=4, backing_bytes=16, origin=0, size=8, src=[(2, 4)], dst=[(10, 4)], init="idx",
+        addressing="byte", sels=[3, 1], junk=1)
+    add(kind="wb2csr", lanes=1, words=4, register=True, init="idx", junk=1)
+    add(kind="wb2csr", lanes=1, words=4, register=False, init="idx", junk=1)
+    # 16-bit CSR bus behind a byte-addressed Wishbone interface (address shift of the bridge); the CSR bus has no
+    # byte enables, so whole-word and null accesses only
+    add(kind="wb2csr", lanes=2, words=2, register=True, init="alt", addressing="byte", sels=[3, 0], junk=1)
+    # demonstration of the listed finding C07-wb2csr-partial-write (every byte select on a 16-bit CSR bus): own batch,
+    # dropped after the finding
+    add(kind="wb2csr", lanes=2, words=2, register=False, init="alt", partial=1, alone=True, nofollowup=True)
+    add(kind="cache", lanes=1, words=4, slave_dw=8, cachesize=2, init="zero", junk=1, misses=1)
+    add(kind="cache", lanes=1, words=4, slave_dw=8, cachesize=2, init="idx", junk=1, misses=1)
+    add(kind="cache", lanes=1, words=4, slave_dw=16, cachesize=4, init="zero", junk=1)
+    add(kind="cache", lanes=2, words=2, slave_dw=8, cachesize=2, init="zero", nosel0=1, junk=1)
+    # the two geometries above hold the whole memory (one tag): no line is ever evicted or refilled.  Line of two
+    # master words / master word of two slave words WITH two tags per line: the master uses the addresses of one
+    # cache line only (the other line's bytes never change, which keeps the product small)
+    add(kind="cache", lanes=1, words=8, slave_dw=16, cachesize=4, init="zero", adrs=[0, 1, 4, 5], junk=1, misses=1)
+    add(kind="cache", lanes=2, words=4, slave_dw=8, cachesize=2, init="zero", adrs=[0, 2], nosel0=1, junk=1, misses=1)
     if tier == "thorough":
         # (memories of at most 4-6 bytes: the product with the monitor's own memory must stay enumerable)
         add(kind="down", lanes=4, words=1, ratio=2, init="alt")
         add(kind="down", lanes=2, words=2, ratio=2, init="zero")
         add(kind="up", lanes=1, words=8, ratio=4, init="idx")
         add(kind="up", lanes=2, words=4, ratio=2, init="alt")
+        add(kind="up", lanes=1, words=16, ratio=8, init="idx", adrs=[0, 3, 7, 8, 13], junk=1)
         add(kind="cache", lanes=1, words=4, slave_dw=16, cachesize=4, init="zero", reverse=False)
         add(kind="sram", lanes=4, words=2, init="alt")
         add(kind="sram_ro", lanes=1, words=4, init="idx")
-    return L
+        add(kind="cache", lanes=1, words=8, slave_dw=16, cachesize=4, init="zero", adrs=[0, 1, 4, 5], reverse=False,
+            junk=1, misses=1)
+        # line of four master words, both byte orders
+        add(kind="cache", lanes=1, words=16, slave_dw=32, cachesize=8, init="zero", adrs=[0, 1, 8, 9], junk=1, misses=1)
+        add(kind="cache", lanes=1, words=16, slave_dw=32, cachesize=8, init="zero", adrs=[0, 1, 8, 9], reverse=False,
+            misses=1)
+        # (a master word of four slave words - lanes=4, slave_dw=8 - is out of reach: 8 varying bytes behind the
+        # cache's own copy give > 2*10^6 product states)
+        # default size (the whole address space) and two regions swapped
+        add(kind="remap", lanes=1, words=8, backing_bytes=8, origin=0, size=None, src=[(0, 2), (4, 2)],
+            dst=[(4, 2), (0, 2)], init="idx", junk=1)
+        add(kind="remap", lanes=2, words=4, backing_bytes=16, origin=8, size=8, src=[(10, 2)], dst=[(2, 2)], init="idx")
+        add(kind="wb2csr", lanes=2, words=2, register=False, init="alt", sels=[3, 0])
+        add(kind="wb2csr", lanes=2, words=2, register=False, init="alt", addressing="byte", sels=[3, 0], junk=1)
+    return [(s, tla_cfg(s, i + 1)) for i, s in enumerate(L)]
